@@ -491,6 +491,10 @@ def _run_syn(case, ctx, pym):
     def make(rng, step):
         if not sa_sb:
             sa_sb["a"], sa_sb["b"] = 10.0 ** rng.uniform(-3, 3), 10.0 ** rng.uniform(-2, 2)
+            if case.get("B", "none") != "none" and case["id"] % 6 == 0:
+                # eigenvalues (and with them the shifts) of the order 1e-10: the inverse vibration problem M q = (1/w^2) K q in SI units
+                sa_sb["a"], sa_sb["b"] = 10.0 ** rng.uniform(-1, 1), 10.0 ** rng.uniform(9, 11)
+                ctx.count("sparse_pencils_with_eigenvalues_of_order_1e-10")
         n = case["n"] if step != 1 else case["n2"]
         p = ref.sparse_problem(rng, case["cls"], n, case["B"], case["fmt"], sa_sb["a"], sa_sb["b"])
         if case.get("samepattern") and p["B"] is not None:
